@@ -33,7 +33,13 @@ def decBits (k : Prim) (bits : List Bool) : Option (Leaf × List Bool) :=
   | .uint => match r.readUint with | .ok (v, r') => some (.int v, bits.drop r'.pos) | .error _ => none
   | .sint => match r.readSint with | .ok (v, r') => some (.int v, bits.drop r'.pos) | .error _ => none
 
-def bitCodec : Codec := { enc := encBits, dec := decBits }
+/-- the most 1-bits a value can take from beyond the end of a bounded block: the whole value for the
+    fixed-width kinds; "value bit, stop bit" for `read_uint`, plus the sign bit for `read_sint` -/
+def virtBits : Prim → Nat
+  | .bool => 1 | .nbits n => n | .uintLit n => 8 * n | .bitarray n => n | .bytes n => 8 * n
+  | .uint => 2 | .sint => 3
+
+def bitCodec : Codec := { enc := encBits, dec := decBits, virt := virtBits }
 
 
 end VC2.Model.Serdes
